@@ -14,3 +14,5 @@ open Just.Props.C03
 #print axioms all_lines_checked
 #print axioms Just.Dfs.node_sound
 #print axioms Just.Dfs.sorted_rank
+#print axioms resolveAssignments_no_fuel
+#print axioms resolveRecipes_no_fuel
